@@ -235,3 +235,22 @@ Example ex_resched_noargs :
   let s := reach 9 [] [OAct (AAdd 1 (Some 0%N) ANop 1 (Some 0%N) noargs); OAct (AResched (Named 0) 4); OAdvance 2; ORun; OAdvance 3; ORun] in
   map c_clock (calls s) = [5]%Z /\ removed s = [0%N].
 Proof. vm_compute. repeat split. Qed.
+
+(* ---- run()'s except handler: names of every shape, raising callbacks ---- *)
+(* a raising event registered under a tuple of two strs (Named 10), one under the empty tuple (Named 8) and one under a
+   str with a % directive (Named 3), then a well-behaved one: all four are called, run() returns normally *)
+Definition ex_names : list op :=
+  [OAct (AAdd 1 None ARaise 1 (Some 10%N) noargs); OAct (AAdd 2 None ARaise 1 (Some 8%N) noargs);
+   OAct (AAdd 3 None ARaise 1 (Some 3%N) noargs); OAct (AAdd 4 None ANop 2 (Some 0%N) noargs); OAdvance 5].
+Example ex_names_run_ok :
+  let s := reach 9 [] ex_names in
+  map fmt_args (map e_name (heap s)) = [1; 1; 0; 2]%N /\
+  snd (run_loop 9 s) = Ok tt /\ length (calls (fst (run_loop 9 s))) = 4%nat /\ heap (fst (run_loop 9 s)) = [].
+Proof. vm_compute. repeat split. Qed.
+
+(* what the handler model says about an eagerly interpolated one-directive template: it raises exactly for names that
+   do not supply one value (tuples of length <> 1) -- the shape the table extractor reports if such a line appears *)
+Example interpolation_would_raise :
+  map (fun n => negb (N.eqb 1 (fmt_args n))) [Auto 0; Named 0; Named 3; Named 8; Named 9; Named 10; Named 11]
+  = [false; false; false; true; false; true; true].
+Proof. reflexivity. Qed.
